@@ -129,12 +129,22 @@ func (n *Node) Execute(ctx context.Context) error {
 	if err != nil {
 		return err
 	}
+	// Drain the capture pipe while the command runs: a pipe holds 64 KiB, a
+	// command that prints more would block forever if it were read afterwards.
+	var buf bytes.Buffer
+	captured := make(chan struct{})
+	if n.outputReader != nil && n.data.Step.Output != "" {
+		go func() {
+			// TODO: Error handling
+			_, _ = io.Copy(&buf, n.outputReader)
+			close(captured)
+		}()
+	}
 	n.SetError(cmd.Run())
 	if n.outputReader != nil && n.data.Step.Output != "" {
 		util.LogErr("close pipe writer", n.outputWriter.Close())
-		var buf bytes.Buffer
-		// TODO: Error handling
-		_, _ = io.Copy(&buf, n.outputReader)
+		<-captured
+		util.LogErr("close pipe reader", n.outputReader.Close())
 		ret := strings.TrimSpace(buf.String())
 		_ = os.Setenv(n.data.Step.Output, ret)
 		n.data.Step.OutputVariables.Store(
